@@ -18,6 +18,7 @@ import vlib
 LEVEL = "exploration"
 BIN = "c11"
 TRACE = "Trace_SortMerge"
+JVM = "-Xmx2g -XX:TieredStopAtLevel=1 -XX:ParallelGCThreads=1 -XX:CICompilerCount=1"
 
 
 # ---- binding self-tests: a corrupted output must be rejected
@@ -156,8 +157,9 @@ def run(ctx):
     files = _files(s)
     if not files:
         raise vlib.ToolError("c11 produced no traces")
+    # short validations: C1-only JIT and one GC thread halve the fixed cost of a JVM start on a loaded machine
     ctx.validate(TRACE, files, what="sort / merge / set-operation batch events", max_reject_per_file=60,
-                 timeout=1500 if ctx.thorough else 500)
+                 timeout=1500 if ctx.thorough else 500, jvm=JVM)
     # --- binding self-tests
     clean = lambda subj: subj.startswith(("radix:u64", "mwm:heap", "setops:multiset_union", "ksets:bitmask", "mops:"))
     tests = [
@@ -232,7 +234,7 @@ def replay(ctx, path):
     fam = (subj or "").split(":")[0]
     s = ctx.harness(BIN, "drive", "rp", subject=subj, extra={"fam": fam} if fam else None, timeout=900)
     files = _files(s)
-    ctx.validate(TRACE, files, what="replay of " + os.path.basename(path), max_reject_per_file=60)
+    ctx.validate(TRACE, files, what="replay of " + os.path.basename(path), max_reject_per_file=60, jvm=JVM)
     ctx.cov["evaluations"] = s.get("events", 0)
     ctx.cov["distinct_nontrivial"] = s.get("distinct_nontrivial", 0)
     ctx.cov["rule"] = "replay of one subject"
